@@ -27,6 +27,8 @@ var Inputs = []Input{
 	{"strict-semis", "SELECT 1;;SELECT 2"},            // strict mode
 	{"strict-empty", ";"},                             // strict mode / empty
 	{"empty", ""},
+	{"leading-tabs", "\t\t\t\t\t\t\t\t\t\t\t\t  SELECT a,\tb\n\tFROM t"}, // column bookkeeping (a tab counts 4) after a shorter previous input
+	{"leading-tabs-error", "\t\t\t\t\t\t  'unterminated"},                // … and in an error location on the first line
 	{"depth-at-limit", gen.Nested(parser.MaxRecursionDepth - 2)},
 	{"depth-over-limit", gen.Nested(parser.MaxRecursionDepth + 1)},
 	{"short-multiline", "SELECT\n a\nFROM t\nWHERE"}, // line tables after a long input
@@ -73,15 +75,21 @@ type Res struct {
 	Canon string
 }
 
-// TokBattery runs the battery on t starting at rotation rot.
+// TokBattery runs the battery on t starting at rotation rot: first
+// TokenizeContext over all inputs, then Tokenize over all inputs, so that each
+// entry point is also probed right after a DIFFERENT input (a short one before
+// one with leading whitespace, a commented one before a comment-free one).
 func TokBattery(t *tokenizer.Tokenizer, rot int) []Res {
 	out := make([]Res, 0, len(Inputs)*2)
 	for i := range Inputs {
 		in := Inputs[(i+rot)%len(Inputs)]
+		toks, err := t.TokenizeContext(simctx.Never(), []byte(in.SQL))
+		out = append(out, Res{in.Name + "/TokenizeContext", "tokens=" + canon.Of(toks) + " err=" + canon.Err(err) + " comments=" + canon.Of(t.Comments)})
+	}
+	for i := range Inputs {
+		in := Inputs[(i+rot)%len(Inputs)]
 		toks, err := t.Tokenize([]byte(in.SQL))
 		out = append(out, Res{in.Name + "/Tokenize", "tokens=" + canon.Of(toks) + " err=" + canon.Err(err) + " comments=" + canon.Of(t.Comments) + " dialect=" + string(t.Dialect())})
-		toks, err = t.TokenizeContext(simctx.Never(), []byte(in.SQL))
-		out = append(out, Res{in.Name + "/TokenizeContext", "tokens=" + canon.Of(toks) + " err=" + canon.Err(err) + " comments=" + canon.Of(t.Comments)})
 	}
 	return out
 }
